@@ -36,6 +36,9 @@ Section Spec.
     && match si_node s with None => true | Some (n, p) => node_read az p n end.
   Definition readable_svcname (s : svcname) : bool := service_read az EmptyString (sv_name s).
   Definition readable_gwsvc (g : gwsvc) : bool := service_read az EmptyString (gs_service g).
+  (* a gateway mapping in a service dump: the gateway's own name must be readable as well *)
+  Definition readable_gwmapping (g : gwsvc) : bool :=
+    service_read az EmptyString (gs_service g) && svc_ok EmptyString (gs_gateway g).
   (* management (acl:write) sees every query; otherwise only named/templated ones the token may read *)
   Definition query_named (q : pquery) : bool := negb (str_empty (pq_name q)) || pq_templated q.
   Definition readable_query (q : pquery) : bool :=
@@ -81,16 +84,16 @@ Section Spec.
 
   (* ---------------- the whole type switch, declaratively ----------------
      Keep exactly the readable elements (List.filter: order and multiplicity preserved), set
-     the flag exactly when something was removed (branches that never clear the flag: "old ||"). *)
+     the flag exactly when something was removed by THIS run (the flag on entry is never read). *)
   Definition spec_response (r : response) : response :=
     match r with
     | RCheckServiceNodes l => RCheckServiceNodes (filter readable_csn l)
     | RIndexedCheckServiceNodes l _ => RIndexedCheckServiceNodes (filter readable_csn l) (removed readable_csn l)
     | RPreparedQueryExecuteResponse l _ =>
         RPreparedQueryExecuteResponse (filter readable_csn l) (removed readable_csn l)
-    | RIndexedServiceTopology u d fa f =>
+    | RIndexedServiceTopology u d _ _ =>
         let r := removed readable_csn u || removed readable_csn d in
-        RIndexedServiceTopology (filter readable_csn u) (filter readable_csn d) (fa || r) (f || r)
+        RIndexedServiceTopology (filter readable_csn u) (filter readable_csn d) r r
     | RDatacenterIndexedCheckServiceNodes m _ =>
         RDatacenterIndexedCheckServiceNodes (spec_groups readable_csn m) (group_removed readable_csn m)
     | RIndexedCoordinates l _ => RIndexedCoordinates (filter readable_coord l) (removed readable_coord l)
@@ -100,10 +103,10 @@ Section Spec.
     | RIntentionQueryMatch (Some l) =>
         RIntentionQueryMatch (if forallb (fun e => str_empty (snd e) || intention_read az (snd e)) l
                               then Some l else None)
-    | RIndexedNodeDump i d f =>
+    | RIndexedNodeDump i d _ =>
         RIndexedNodeDump (map spec_nodeinfo (filter readable_nodeinfo i))
                          (map spec_nodeinfo (filter readable_nodeinfo d))
-                         (f || removed nodeinfo_intact d || removed nodeinfo_intact i)
+                         (removed nodeinfo_intact d || removed nodeinfo_intact i)
     | RIndexedServiceDump l _ => RIndexedServiceDump (filter readable_svcinfo l) (removed readable_svcinfo l)
     | RIndexedNodes l _ => RIndexedNodes (filter readable_node l) (removed readable_node l)
     | RIndexedNodeServices None _ => RIndexedNodeServices None false
@@ -141,12 +144,12 @@ Section Spec.
     | RACLAuthMethods l => RACLAuthMethods (if acl_read az then map Some (somes l) else [])
     | RACLAuthMethod p => RACLAuthMethod (if acl_read az then p else None)
     | RIndexedServiceList l _ => RIndexedServiceList (filter readable_svcname l) (removed readable_svcname l)
-    | RIndexedExportedServiceList m f =>
-        RIndexedExportedServiceList (spec_groups readable_svcname m) (f || group_removed readable_svcname m)
+    | RIndexedExportedServiceList m _ =>
+        RIndexedExportedServiceList (spec_groups readable_svcname m) (group_removed readable_svcname m)
     | RIndexedGatewayServices l _ => RIndexedGatewayServices (filter readable_gwsvc l) (removed readable_gwsvc l)
-    | RIndexedNodesWithGateways i n g f =>
-        RIndexedNodesWithGateways (filter readable_csn i) (filter readable_csn n) (filter readable_gwsvc g)
-                                  (f || removed readable_csn n || removed readable_gwsvc g || removed readable_csn i)
+    | RIndexedNodesWithGateways i n g _ =>
+        RIndexedNodesWithGateways (filter readable_csn i) (filter readable_csn n) (filter readable_gwmapping g)
+                                  (removed readable_csn n || removed readable_gwmapping g || removed readable_csn i)
     | RDirEntries l => RDirEntries (filter readable_dirent l)
     | RTxnResults l => RTxnResults (filter readable_txn l)
     end.
@@ -203,7 +206,7 @@ Section Spec.
     | RIndexedExportedServiceList m _ => flat_map (fun kv => items_of sv_id readable_svcname (snd kv)) m
     | RIndexedGatewayServices l _ => items_of gs_id readable_gwsvc l
     | RIndexedNodesWithGateways i n g _ =>
-        items_of c_id readable_csn n ++ items_of gs_id readable_gwsvc g ++ items_of c_id readable_csn i
+        items_of c_id readable_csn n ++ items_of gs_id readable_gwmapping g ++ items_of c_id readable_csn i
     | RDirEntries l => items_unflagged de_id readable_dirent l
     | RTxnResults l =>
         items_unflagged (fun r => match r with TKV i _ | TNode i _ _ | TSvc i _ _ | TCheck i _ _ _ | TNone i => i end)
@@ -260,14 +263,6 @@ Definition flag_of (r : response) : option bool :=
   | RIndexedServiceList _ f | RIndexedExportedServiceList _ f | RIndexedGatewayServices _ f
   | RIndexedNodesWithGateways _ _ _ f => Some f
   | _ => None
-  end.
-
-(* branches written "if filtered { flag = true }": the flag is never cleared *)
-Definition sticky_type (r : response) : bool :=
-  match r with
-  | RIndexedServiceTopology _ _ _ _ | RIndexedNodeDump _ _ _ | RIndexedExportedServiceList _ _
-  | RIndexedNodesWithGateways _ _ _ _ => true
-  | _ => false
   end.
 
 (* Go maps have unique keys *)
